@@ -69,15 +69,65 @@ Lemma skel_nonjoint_ok : skel_buildStepsWithoutJointConsensus =
    IfE "len(b.steps) == 0" [Ret] []; Ret].
 Proof. reflexivity. Qed.
 
+(* planReplace: five alternatives (promote+demote, add voter+demote, add+remove of the same kind on a free store,
+   add learner+promote+remove voter on a free store, add voter+demote+remove learner) *)
 Lemma replace_guards_ok : replace_guards =
-  ["core.IsLearner(remove) == core.IsLearner(add)"; "core.IsLearner(add)"; "!core.IsLearner(remove) && j != k";
-   "core.IsLearner(remove)"; "!core.IsLearner(add) && j != k"].
+  ["!core.IsLearner(add)"; "core.IsLearner(remove) == core.IsLearner(add) && b.currentPeers[i] == nil"; "core.IsLearner(add)";
+   "!core.IsLearner(remove) && b.currentPeers[j] == nil"; "core.IsLearner(remove)"; "!core.IsLearner(add) && j != k"].
 Proof. reflexivity. Qed.
+
+Lemma replace_candidates_ok : replace_candidates =
+  ["best, stepPlan{promote: promote, demote: demote}"; "best, stepPlan{demote: demote, add: add}";
+   "best, stepPlan{add: add, remove: remove}"; "best, stepPlan{promote: promote, add: add, remove: remove}";
+   "best, stepPlan{demote: demote, add: add, remove: remove}"].
+Proof. reflexivity. Qed.
+
+Lemma skel_peerPlan_ok : skel_peerPlan =
+  [Call "planReplace"; Call "IsEmpty"; IfE "!p.IsEmpty()" [Ret] []; Call "planPromotePeer"; Call "IsEmpty"; IfE "!p.IsEmpty()" [Ret] [];
+   Call "planDemotePeer"; Call "IsEmpty"; IfE "!p.IsEmpty()" [Ret] []; Call "planRemovePeer"; Call "IsEmpty"; IfE "!p.IsEmpty()" [Ret] [];
+   Call "planAddPeer"; Call "IsEmpty"; IfE "!p.IsEmpty()" [Ret] []; Ret].
+Proof. reflexivity. Qed.
+
+Lemma skel_planReplace_ok : skel_planReplace =
+  [ForE [ForE [Call "planReplaceLeaders"]];
+   ForE [ForE [IfE "!core.IsLearner(add)" [Call "planReplaceLeaders"] []]];
+   ForE [ForE [IfE "core.IsLearner(remove) == core.IsLearner(add) && b.currentPeers[i] == nil" [Call "planReplaceLeaders"] []]];
+   ForE [ForE [IfE "core.IsLearner(add)" [ForE [IfE "!core.IsLearner(remove) && b.currentPeers[j] == nil" [Call "planReplaceLeaders"] []]] []]];
+   ForE [ForE [IfE "core.IsLearner(remove)" [ForE [IfE "!core.IsLearner(add) && j != k" [Call "planReplaceLeaders"] []]] []]];
+   Ret].
+Proof. reflexivity. Qed.
+
+(* leaderBeforeAdd: an allowed current peer; leaderBeforeRemove: an allowed current peer, the promoted or the added
+   peer - never the store that is demoted or removed *)
+Lemma skel_planReplaceLeaders_ok : skel_planReplaceLeaders =
+  [ForE [Call "allowLeader"; IfE "!b.allowLeader(b.currentPeers[leaderBeforeAdd], false)" [Cont] [];
+         ForE [Call "allowLeader";
+               IfE "leaderBeforeRemove != next.demote.GetStoreId() && leaderBeforeRemove != next.remove.GetStoreId() && b.allowLeader(b.currentPeers[leaderBeforeRemove], false)"
+                 [Call "comparePlan"] []];
+         Call "allowLeader";
+         IfE "next.promote != nil && next.promote.GetStoreId() != next.demote.GetStoreId() && next.promote.GetStoreId() != next.remove.GetStoreId() && b.allowLeader(next.promote, false)"
+           [Call "comparePlan"] [];
+         Call "allowLeader";
+         IfE "next.add != nil && next.add.GetStoreId() != next.demote.GetStoreId() && next.add.GetStoreId() != next.remove.GetStoreId() && b.allowLeader(next.add, false)"
+           [Call "comparePlan"] []];
+   Ret].
+Proof. reflexivity. Qed.
+
+Lemma skel_plan_single_ok :
+  skel_planPromotePeer = [ForE [Ret]; Ret]
+  /\ skel_planDemotePeer =
+       [ForE [ForE [Call "allowLeader"; IfE "b.allowLeader(b.currentPeers[leader], false) && leader != d.GetStoreId()" [Call "comparePlan"] []]]; Ret]
+  /\ skel_planRemovePeer =
+       [ForE [ForE [Call "allowLeader"; IfE "b.allowLeader(b.currentPeers[leader], false) && leader != r.GetStoreId()" [Call "comparePlan"] []]]; Ret]
+  /\ skel_planAddPeer =
+       [ForE [IfE "b.currentPeers[i] != nil" [Cont] [];
+              ForE [Call "allowLeader"; IfE "b.allowLeader(b.currentPeers[leader], false)" [Call "comparePlan"] []]]; Ret].
+Proof. repeat split; reflexivity. Qed.
 
 Lemma prepare_guards_ok : prepare_guards =
   ["!core.IsLearner(peer)"; "voterCount == 0"; "n == nil"; "o.GetId() != n.GetId()"; "core.IsLearner(o)"; "!core.IsLearner(n)";
    "core.IsLearner(n)"; "b.allowDemote"; "o == nil || (!b.allowDemote && !core.IsLearner(o) && core.IsLearner(n))";
-   "n.GetId() == 0"; "err != nil"; "!ok || core.IsLearner(peer)"; "b.targetLeaderStoreID != 0";
+   "n.GetId() == 0 || o != nil"; "err != nil"; "!ok || core.IsLearner(peer)"; "b.targetLeaderStoreID != 0";
    "!b.allowLeader(targetLeader, b.forceTargetLeader)";
    "len(b.toAdd)+len(b.toRemove)+len(b.toPromote)+len(b.toDemote) <= 1"].
 Proof. reflexivity. Qed.
